@@ -6,7 +6,7 @@
    by the differential run of props/C05.py, not by these theorems. *)
 From Coq Require Import NArith List Bool.
 Import ListNotations.
-Require Import XV.GenForms XV.FormsDefs XV.FormsModel XV.FormsChunks XV.FormsTree XV.FormsWrap.
+Require Import XV.GenForms XV.FormsDefs XV.FormsModel XV.FormsChunks XV.FormsTree XV.FormsWrap XV.FormsIdDefs XV.FormsId.
 
 (** * 1. characters() chunking *)
 
@@ -160,6 +160,31 @@ Theorem chunks_are_bounded : forall k bs ws,
 Proof. exact chunks_bounded_k. Qed.
 Print Assumptions chunks_are_bounded.
 
+(** * 5. the element-by-ID table of the native builder (id()) *)
+
+(* registering IDs does not disturb the tree: same document as build_sax of the untyped events *)
+Theorem id_table_keeps_tree : forall evs d t, build_ids evs = Some (d, t) -> build_sax (map erase evs) = Some d.
+Proof. exact build_ids_tree. Qed.
+Print Assumptions id_table_keeps_tree.
+
+(* getElementById(v) on the native tree = the FIRST element in document order with an attribute whose
+   declared type is exactly "ID" and whose value is v (IDREF / IDREFS / NMTOKEN ... are never registered) *)
+Theorem id_table_first_wins : forall evs d t v, build_ids evs = Some (d, t) ->
+  id_lookup t v = id_lookup (all_id_pairs h_init evs) v.
+Proof. exact table_is_first. Qed.
+Print Assumptions id_table_first_wins.
+
+Theorem id_table_only_declared_ids : forall evs d t p, build_ids evs = Some (d, t) -> In p t -> In p (all_id_pairs h_init evs).
+Proof. exact table_only_ids. Qed.
+Print Assumptions id_table_only_declared_ids.
+
+(* with unique IDs the table IS the list of the ID attributes (value -> its one element): what
+   DOMDocument::getElementById answers on the Xerces DOM of the same document *)
+Theorem id_table_unique_ids : forall evs d t, build_ids evs = Some (d, t) -> unique_ids (all_id_pairs h_init evs) ->
+  t = all_id_pairs h_init evs.
+Proof. exact table_unique. Qed.
+Print Assumptions id_table_unique_ids.
+
 (** * the hypotheses are satisfiable / the statements are not vacuous *)
 Definition doc1 : list tree :=
   [TComment s_x; TElem s_a [(s_b, s_x); (s_xmlns_colon ++ s_y, s_x)] [TText (s_x ++ s_y); TComment []; TText s_y; TElem s_b [] []; TText s_x]].
@@ -221,6 +246,20 @@ Proof. vm_compute. reflexivity. Qed.
 Example surrogate_block_path :
   chunks_k true 2 [OWide [97; 98; u_hi]; OWide [u_lo; 99; 100]; OFlush]%N = [CWide [97; 98]; CWide [u_hi; u_lo]; CWide [99; 100]]%N.
 Proof. vm_compute. reflexivity. Qed.
+
+(* <a><see ref="k2"/><entry id="k2"/><see ref="nope"/></a> with ref IDREF, id ID: the forward reference does
+   not shadow its target, the dangling one resolves to nothing *)
+Definition s_id : str := [105; 100]%N.
+Definition s_ref : str := [114; 101; 102]%N.
+Definition s_k2 : str := [107; 50]%N.
+Definition s_IDREF : str := [73; 68; 82; 69; 70]%N.
+Definition id_events : list tevent :=
+  [TStart s_a []; TStart s_x [((s_ref, s_k2), s_IDREF)]; TEv EEnd; TStart s_y [((s_id, s_k2), s_ID)]; TEv EEnd;
+   TStart s_x [((s_ref, s_b), s_IDREF)]; TEv EEnd; TEv EEnd].
+Example forward_idref_does_not_shadow : get_element_by_id id_events s_k2 = Some 6%N /\ get_element_by_id id_events s_b = None.
+Proof. vm_compute. auto. Qed.
+Example id_events_unique : unique_ids (all_id_pairs h_init id_events).
+Proof. vm_compute. repeat constructor; intros []. Qed.
 
 Definition writes1 : list owrite := [OWide [1; 2; 3]; OChar 4; OWide [5; 6; 7; 8; 9]; OFlush; ONarrow [10; 11]; OWide [12]]%N.
 Example writes1_ok : narrow_ok 4 writes1 = true.
